@@ -99,6 +99,7 @@ static STEPS: AtomicU64 = AtomicU64::new(0);
 static EXECUTIONS: AtomicU64 = AtomicU64::new(0);
 static CONTENDED_EXECS: AtomicU64 = AtomicU64::new(0);
 static OPS: AtomicU64 = AtomicU64::new(0);
+static PROGRESS_FILE: OnceLock<String> = OnceLock::new();
 
 /// Workload of one operation, drawn from shuttle's data source so that it is
 /// part of the recorded schedule.
@@ -388,7 +389,13 @@ fn scenario(max_threads: usize, max_ops: usize) {
     if after.contended > before.contended {
         CONTENDED_EXECS.fetch_add(1, Ordering::Relaxed);
     }
-    EXECUTIONS.fetch_add(1, Ordering::Relaxed);
+    let done = EXECUTIONS.fetch_add(1, Ordering::Relaxed) + 1;
+    // heartbeat for the driver: progress, not elapsed time, tells a healthy child from a stuck one
+    if done % 25 == 0 {
+        if let Some(p) = PROGRESS_FILE.get() {
+            let _ = std::fs::write(p, done.to_string());
+        }
+    }
     let _ = nthreads;
 }
 
@@ -486,6 +493,9 @@ fn main() {
                 std::process::exit(1);
             }
         }
+    }
+    if let Some(o) = &out {
+        let _ = PROGRESS_FILE.set(format!("{}.progress", o));
     }
     let mut cfg = shuttle::Config::new();
     cfg.silence_warnings = true;
